@@ -102,7 +102,7 @@ def outSettings (s : Settings) (w : List Str) : List Str :=
   "ok".toList :: (w.map (fun k => 'w' :: ':' :: k) ++ s.map (fun kv => 'f' :: ':' :: kv.1 ++ '=' :: encVal kv.2))
 
 /-- c15.eff dir pkg hasToml nToml (k v)* nMd line* hasCfg nCfg (k v)* nCli (k v)* -/
-def eff (args : List Str) : Option (List Str) :=
+def eff (T : Tables) (args : List Str) : Option (List Str) :=
   match args with
   | dir :: pkg :: hasToml :: nToml :: r1 =>
     match takeKvs (natOf nToml) r1 with
@@ -115,7 +115,7 @@ def eff (args : List Str) : Option (List Str) :=
           | some (cli, []) =>
             let t := if hasToml == ['1'] then some toml else none
             let c := if hasCfg == ['1'] then some cfg else none
-            match effective generatedTables dir pkg t md c cli with
+            match effective T dir pkg t md c cli with
             | .ok (s, w) => some (outSettings s w)
             | .error e => some (errOut e)
           | _ => none
@@ -130,7 +130,11 @@ open C15Proto in
 def dispatchC15 : List Str → Option (List Str)
   | cmd :: args =>
     if cmd == "c15.eff".toList then
-      match eff args with
+      match eff generatedTables args with
+      | some r => some r
+      | none => some ["bad-request".toList]
+    else if cmd == "c15.effr".toList then   -- variant `repaired` of the extra_mods merge
+      match eff generatedTablesModsRepaired args with
       | some r => some r
       | none => some ["bad-request".toList]
     else if cmd == "c15.meta".toList then
